@@ -401,6 +401,15 @@ func runC05(c *Ctx) {
 	// ---------- R6 Client.MkdirAll reports what os.MkdirAll reports ----------
 	checkMkdirAllSibling(c, "R6")
 
+	// ---------- R7 client methods send the namesake request with the arguments in the right fields ----------
+	checkClientRequests(c, "R7")
+
+	// ---------- R8 Client.Remove: which of the two errors is reported ----------
+	checkRemoveComposite(c, "R8")
+
+	// ---------- R9 Client.RemoveAll ----------
+	checkRemoveAllComposite(c, "R9")
+
 	// ---------- R4 toLocalPath ----------
 	if tl := p.Func("(*Server).toLocalPath"); tl == nil {
 		c.missing("R4", "(*Server).toLocalPath")
@@ -791,4 +800,314 @@ func checkMkdirAllSibling(c *Ctx, rule string) {
 	if ref != nil && ref.Blocks != nil {
 		c.check(nilRets(cl) == nilRets(ref), rule, "MkdirAll success returns", p.Pos(cl.Pos()), fmt.Sprintf("%d, as os.MkdirAll", nilRets(cl)), fmt.Sprintf("Client.MkdirAll has %d success returns, os.MkdirAll has %d", nilRets(cl), nilRets(ref)))
 	}
+}
+
+// checkClientRequests (C05.R7): each name-space method of the Client sends the request kind package os's namesake
+// performs, with its arguments in the fields that mean the same thing (os.Symlink(oldname, newname): newname is the
+// link, oldname its target; os.Rename/os.Link(old, new)).  Table keyed by method; fields name the k-th string
+// parameter (1-based) or the k-th uint32 parameter ("u1").
+func checkClientRequests(c *Ctx, rule string) {
+	p := c.P
+	type spec struct {
+		fn, pkt string
+		fields  map[string]string
+	}
+	table := []spec{
+		{"(*Client).Symlink", "sshFxpSymlinkPacket", map[string]string{"Targetpath": "s1", "Linkpath": "s2"}},
+		{"(*Client).Link", "sshFxpHardlinkPacket", map[string]string{"Oldpath": "s1", "Newpath": "s2"}},
+		{"(*Client).Rename", "sshFxpRenamePacket", map[string]string{"Oldpath": "s1", "Newpath": "s2"}},
+		{"(*Client).PosixRename", "sshFxpPosixRenamePacket", map[string]string{"Oldpath": "s1", "Newpath": "s2"}},
+		{"(*Client).Mkdir", "sshFxpMkdirPacket", map[string]string{"Path": "s1"}},
+		{"(*Client).removeFile", "sshFxpRemovePacket", map[string]string{"Filename": "s1"}},
+		{"(*Client).RemoveDirectory", "sshFxpRmdirPacket", map[string]string{"Path": "s1"}},
+		{"(*Client).ReadLink", "sshFxpReadlinkPacket", map[string]string{"Path": "s1"}},
+		{"(*Client).RealPath", "sshFxpRealpathPacket", map[string]string{"Path": "s1"}},
+		{"(*Client).stat", "sshFxpStatPacket", map[string]string{"Path": "s1"}},
+		{"(*Client).Lstat", "sshFxpLstatPacket", map[string]string{"Path": "s1"}},
+		{"(*Client).setstat", "sshFxpSetstatPacket", map[string]string{"Path": "s1", "Flags": "u1"}},
+		{"(*Client).open", "sshFxpOpenPacket", map[string]string{"Path": "s1", "Pflags": "u1"}},
+		{"(*Client).opendir", "sshFxpOpendirPacket", map[string]string{"Path": "s1"}},
+		{"(*Client).StatVFS", "sshFxpStatvfsPacket", map[string]string{"Path": "s1"}},
+	}
+	for _, s := range table {
+		fn := p.Func(s.fn)
+		if fn == nil {
+			c.missing(rule, s.fn)
+			continue
+		}
+		c.looked(s.fn)
+		param := func(code string) *ssa.Parameter {
+			want := 0
+			fmt.Sscanf(code[1:], "%d", &want)
+			k := 0
+			for _, pr := range fn.Params[1:] {
+				b, ok := pr.Type().Underlying().(*types.Basic)
+				if !ok {
+					continue
+				}
+				if (code[0] == 's' && b.Kind() == types.String) || (code[0] == 'u' && b.Kind() == types.Uint32) {
+					k++
+					if k == want {
+						return pr
+					}
+				}
+			}
+			return nil
+		}
+		// the packet literal handed to sendPacket
+		var lit *ssa.Alloc
+		var litType string
+		eachInstr(fn, func(in ssa.Instruction) {
+			cc := callOf(in)
+			if cc == nil || calleeName(cc) != "sendPacket" {
+				return
+			}
+			for _, a := range cc.Args {
+				if mi, ok := a.(*ssa.MakeInterface); ok {
+					if al, ok := mi.X.(*ssa.Alloc); ok {
+						lit, litType = al, typeName(al.Type())
+					}
+				}
+			}
+		})
+		if lit == nil {
+			c.und(rule, s.fn+" request", p.Pos(fn.Pos()), "cannot find the packet literal handed to sendPacket")
+			continue
+		}
+		c.check(litType == s.pkt, rule, s.fn+" request kind", p.Pos(lit.Pos()), s.pkt, s.fn+" sends a "+litType+", its namesake in package os corresponds to "+s.pkt)
+		var fields []string
+		for f := range s.fields {
+			fields = append(fields, f)
+		}
+		sort.Strings(fields)
+		for _, f := range fields {
+			wantP := param(s.fields[f])
+			v := litField(lit, f)
+			good := false
+			got := "nothing"
+			if v != nil {
+				for _, l := range leavesOf(v) {
+					if l.Kind == leafParam {
+						got = "parameter " + l.Param.Name()
+						good = wantP != nil && l.Param == wantP
+					} else {
+						got = l.V.String()
+					}
+				}
+			}
+			wn := "?"
+			if wantP != nil {
+				wn = wantP.Name()
+			}
+			c.check(good, rule, s.fn+": "+f, p.Pos(lit.Pos()), f+" ← "+wn, fmt.Sprintf("%s fills %s of the request from %s, expected the argument %s: the operation is applied to the wrong name", s.fn, f, got, wn))
+		}
+	}
+}
+
+// checkRemoveComposite (C05.R8): Client.Remove tries the file removal, then the directory removal.  Decided on the
+// return leaves with the branch conditions that select them: nil is returned exactly when one of the two succeeded;
+// when both failed, the directory error is reported only for a directory, the file error only for a non-directory (or
+// when both errors are the same PathError), and a failing Stat reports its own error.
+func checkRemoveComposite(c *Ctx, rule string) {
+	p := c.P
+	fn := p.Func("(*Client).Remove")
+	if fn == nil {
+		c.missing(rule, "(*Client).Remove")
+		return
+	}
+	c.looked("(*Client).Remove")
+	srcOf := func(v ssa.Value) string {
+		out := ""
+		for _, l := range leavesOf(v) {
+			switch l.Kind {
+			case leafCallResult:
+				out = calleeName(l.Call)
+			case leafConst:
+				if k, ok := l.V.(*ssa.Const); ok && k.Value == nil {
+					out = "nil"
+				}
+			}
+		}
+		return out
+	}
+	calls := 0
+	eachInstr(fn, func(in ssa.Instruction) {
+		if cc := callOf(in); cc != nil && (calleeName(cc) == "removeFile" || calleeName(cc) == "RemoveDirectory") {
+			calls++
+		}
+	})
+	c.check(calls == 2, rule, "Remove tries the file, then the directory", p.Pos(fn.Pos()), "one removeFile and one RemoveDirectory", fmt.Sprintf("%d removal calls in Remove", calls))
+	n := 0
+	for _, rl := range returnLeaves(fn, 0) {
+		n++
+		src := srcOf(rl.v)
+		conds := edgeConds(rl.block, rl.pred)
+		var succeeded, isDirT, isDirF, sameErr, statFailed bool
+		for cv, truth := range conds {
+			switch x := cv.(type) {
+			case *ssa.BinOp:
+				if isNilConst(x.Y) {
+					s := srcOf(x.X)
+					isNil := (x.Op == token.EQL) == truth
+					if isNil && (s == "removeFile" || s == "RemoveDirectory") {
+						succeeded = true
+					}
+					if !isNil && s == "Stat" {
+						statFailed = true
+					}
+				}
+			case *ssa.Call:
+				switch calleeName(&x.Call) {
+				case "IsDir":
+					if truth {
+						isDirT = true
+					} else {
+						isDirF = true
+					}
+				case "Is":
+					if truth {
+						sameErr = true
+					}
+				}
+			}
+		}
+		key := fmt.Sprintf("Remove result #%d (%s)", n, src)
+		pos := p.Pos(rl.block.Instrs[len(rl.block.Instrs)-1].Pos())
+		switch src {
+		case "nil":
+			c.check(succeeded, rule, key, pos, "nil only after one of the two removals succeeded", "Remove returns nil although neither removal succeeded")
+		case "removeFile":
+			c.check(!succeeded && (isDirF || sameErr), rule, key, pos, "the file error for a non-directory (or when both errors agree)", "Remove reports the file-removal error on a path where the directory removal succeeded or the name is a directory")
+		case "RemoveDirectory":
+			c.check(!succeeded && isDirT, rule, key, pos, "the directory error for a directory", "Remove reports the directory-removal error for something that is not a directory (or after a success)")
+		case "Stat":
+			c.check(statFailed, rule, key, pos, "Stat's own error when it fails", "Remove returns Stat's error value on a path where Stat succeeded")
+		default:
+			c.und(rule, key, pos, "result of Remove not understood: "+rl.v.String())
+		}
+	}
+	c.check(n >= 5, rule, "Remove results", p.Pos(fn.Pos()), fmt.Sprintf("%d result leaves", n), fmt.Sprintf("only %d result leaves found in Remove", n))
+}
+
+// checkRemoveAllComposite (C05.R9): Client.RemoveAll walks one directory level per call.  Decided: every error of
+// Stat/ReadDir/RemoveAll/Remove is returned (the function's results come only from those calls, never a constant
+// nil), children are addressed as path + "/" + Name(), sub-directories recurse and other entries are removed
+// directly (selected by the entry's IsDir()), and the last step removes path itself.
+func checkRemoveAllComposite(c *Ctx, rule string) {
+	p := c.P
+	fn := p.Func("(*Client).RemoveAll")
+	if fn == nil {
+		c.missing(rule, "(*Client).RemoveAll")
+		return
+	}
+	c.looked("(*Client).RemoveAll")
+	pathP := fn.Params[1]
+	isChild := func(v ssa.Value) bool {
+		// (path + "/") + x.Name()
+		a, ok := v.(*ssa.BinOp)
+		if !ok || a.Op != token.ADD {
+			return false
+		}
+		b, ok := a.X.(*ssa.BinOp)
+		if !ok || b.Op != token.ADD || b.X != ssa.Value(pathP) {
+			return false
+		}
+		if s, ok := constString(b.Y); !ok || s != "/" {
+			return false
+		}
+		call, ok := a.Y.(*ssa.Call)
+		return ok && call.Call.IsInvoke() && call.Call.Method.Name() == "Name"
+	}
+	var recur, remChild, remSelf int
+	eachInstr(fn, func(in ssa.Instruction) {
+		call, ok := in.(*ssa.Call)
+		if !ok {
+			return
+		}
+		nm := calleeName(&call.Call)
+		if nm != "RemoveAll" && nm != "Remove" {
+			return
+		}
+		arg := call.Call.Args[len(call.Call.Args)-1]
+		conds := edgeConds(call.Block(), nil)
+		entryIsDir := 0
+		for cv, truth := range conds {
+			if x, ok := cv.(*ssa.Call); ok && x.Call.IsInvoke() && x.Call.Method.Name() == "IsDir" && inLoop(x) {
+				if truth {
+					entryIsDir = 1
+				} else {
+					entryIsDir = -1
+				}
+			}
+		}
+		key := fmt.Sprintf("RemoveAll step %s at %s", nm, p.Pos(call.Pos()))
+		key = "RemoveAll step " + nm + map[bool]string{true: " (child)", false: " (self)"}[isChild(arg)]
+		switch {
+		case nm == "RemoveAll":
+			recur++
+			c.check(isChild(arg) && entryIsDir == 1, rule, key, p.Pos(call.Pos()), "recursion into path/Name() for a directory entry", "the recursive step is not applied to path + \"/\" + Name() of a directory entry")
+		case isChild(arg):
+			remChild++
+			c.check(entryIsDir == -1, rule, key, p.Pos(call.Pos()), "direct removal of path/Name() for a non-directory entry", "a directory entry is removed directly (fails when it is not empty) or the removal is not selected by the entry's IsDir()")
+		default:
+			remSelf++
+			c.check(arg == ssa.Value(pathP) && !inLoop(call), rule, key, p.Pos(call.Pos()), "Remove(path) after the children", "the final removal is not applied to path itself")
+		}
+	})
+	c.check(recur == 1 && remChild == 1 && remSelf == 1, rule, "RemoveAll steps", p.Pos(fn.Pos()), "recursion, child removal, self removal", fmt.Sprintf("%d recursive, %d child and %d self removals found", recur, remChild, remSelf))
+	src := errSources(fn, 0)
+	want := map[string]bool{"call:Stat": true, "call:ReadDir": true, "call:RemoveAll": true, "call:Remove": true}
+	// Lstat is as good as Stat for the first probe
+	if src["call:Lstat"] {
+		delete(src, "call:Lstat")
+		src["call:Stat"] = true
+	}
+	same := len(src) == len(want)
+	for k := range src {
+		if !want[k] {
+			same = false
+		}
+	}
+	var ks []string
+	for k := range src {
+		ks = append(ks, k)
+	}
+	sort.Strings(ks)
+	c.check(same, rule, "RemoveAll error sources", p.Pos(fn.Pos()), "{"+strings.Join(ks, ", ")+"}", "RemoveAll's result comes from {"+strings.Join(ks, ", ")+"}: an error of one of its steps is dropped (constant nil) or replaced")
+	// every step's error is tested and returned
+	eachInstr(fn, func(in ssa.Instruction) {
+		call, ok := in.(*ssa.Call)
+		if !ok {
+			return
+		}
+		nm := calleeName(&call.Call)
+		if nm != "RemoveAll" && nm != "Remove" && nm != "ReadDir" && nm != "Stat" && nm != "Lstat" {
+			return
+		}
+		var errV ssa.Value = call
+		if call.Type().(interface{ String() string }).String() != "error" {
+			errV = nil
+			for _, r := range *call.Referrers() {
+				if ex, ok := r.(*ssa.Extract); ok && ex.Index == 1 {
+					errV = ex
+				}
+			}
+		}
+		used := false
+		if errV != nil {
+			for _, r := range *errV.Referrers() {
+				switch x := r.(type) {
+				case *ssa.Return:
+					used = true
+				case *ssa.BinOp:
+					if isNilConst(x.Y) {
+						used = true
+					}
+				case *ssa.Phi:
+					used = true
+				}
+			}
+		}
+		c.check(used, rule, "RemoveAll examines the error of "+nm+map[bool]string{true: " (in the loop)", false: ""}[inLoop(call)], p.Pos(call.Pos()), "tested or returned", "the error of "+nm+" is ignored: RemoveAll goes on (and may report success) after a failed step")
+	})
 }
